@@ -149,6 +149,10 @@ func (h *H) argForm(kind byte) *V {
 			f.L = append(f.L, h.intForm())
 		}
 		return f
+	case 'v':
+		return vy("w0")
+	case 'w':
+		return vy("w1")
 	}
 	switch r.Intn(5) {
 	case 0:
@@ -161,6 +165,41 @@ func (h *H) argForm(kind byte) *V {
 		return vl(vy("quote"), vy("sym"))
 	}
 	return h.intForm()
+}
+
+// genFormKind: macro bodies whose expansion is NOT an ordinary call or special form -- every
+// other kind of form Generate dispatches on: an assignment list (target = value, several
+// targets, :=), a list whose head is not a symbol, an infix builder block, and the bare unquote
+// whose expansion is the argument form itself (a symbol, an atom, an array, a call); plus an
+// assignment one level down.  Parameters: p0 target (w0), p1 second target (w1), p2 int
+// expression, p3 any expression.
+func (h *H) genFormKind(m *macroDef) (*T, string) {
+	m.params = []string{"p0", "p1", "p2", "p3"}
+	m.kinds = []byte{'v', 'w', 'i', 'a'}
+	p := func(i int) *T { return tu(vy(m.params[i])) }
+	eq, fa := tl(vy("=")), tl(vy(":="))
+	plus := func(a, b *T) *T { return tlist(tl(vy("+")), a, b) }
+	switch h.rng.Intn(10) {
+	case 0:
+		return tlist(p(0), eq, p(2)), "form-assign"
+	case 1:
+		return tlist(p(0), eq, plus(p(0), p(2))), "form-assign"
+	case 2:
+		return tlist(p(0), p(1), eq, p(2), plus(p(2), tl(vi(1)))), "form-assign-multi"
+	case 3:
+		return tlist(tl(vy("fresh9")), fa, p(2)), "form-fresh-assign"
+	case 4:
+		return tlist(tlist(tl(vy("fn")), tarr(tl(vy("q"))), plus(tl(vy("q")), p(2))), p(2)), "form-head-not-symbol"
+	case 5:
+		return tlist(tl(vy("infix")), tarr(p(2), tl(vy("+")), tl(vi(1)))), "form-infix"
+	case 6:
+		return p(3), "form-bare-any"
+	case 7:
+		return p(0), "form-bare-symbol"
+	case 8:
+		return tlist(tl(vy("begin")), tlist(p(1), eq, p(2)), plus(p(1), p(0))), "form-assign-nested"
+	}
+	return tarr(p(0), tlist(p(1), eq, p(2)), p(1)), "form-assign-in-array"
 }
 
 type depthRec struct {
@@ -219,18 +258,26 @@ type site struct {
 }
 
 var sites = []site{
-	{"top", func(x string) string { return "(pc) (def res1 " + x + ") (pc) res1" }},
+	{"top", func(x string) string { return "(pc) (def res1 " + x + ") (pc) (list res1 w0 w1)" }},
 	{"fn", func(x string) string {
-		return "(defn f2 [a0 b0] (pc) (def res " + x + ") (pc) res) (f2 3 (list 4 5))"
+		return "(defn f2 [a0 b0] (pc) (def res " + x + ") (pc) (list res w0 w1)) (f2 3 (list 4 5))"
 	}},
 	{"loop", func(x string) string {
-		return "(def out3 []) (for [(def a0 0) (< a0 3) (set a0 (+ a0 1))] (pc) (set out3 (append out3 " + x + ")) (pc)) out3"
+		return "(def out3 []) (for [(def a0 0) (< a0 3) (set a0 (+ a0 1))] (pc) (set out3 (append out3 " + x + ")) (pc)) (list out3 w0 w1)"
 	}},
-	{"arg", func(x string) string { return "(pc) (def res4 (list 1 " + x + " 2)) (pc) res4" }},
-	{"let", func(x string) string { return "(defn g5 [a0] (let [q 10] (pc) (list q " + x + "))) (g5 6)" }},
-	{"closure", func(x string) string { return "(def k6 (fn [a0] (pc) " + x + ")) (k6 7)" }},
+	{"arg", func(x string) string { return "(pc) (def res4 (list 1 " + x + " 2)) (pc) (list res4 w0 w1)" }},
+	{"let", func(x string) string { return "(defn g5 [a0] (let [q 10] (pc) (list q " + x + " w0 w1))) (g5 6)" }},
+	{"closure", func(x string) string { return "(def k6 (fn [a0] (pc) (def r6 " + x + ") (list r6 w0 w1))) (k6 7)" }},
+	// the form as a statement, its effect on the variables read back afterwards
+	{"stmt-top", func(x string) string { return "(pc) " + x + " (pc) (list w0 w1)" }},
+	{"stmt-fn", func(x string) string {
+		return "(defn f9 [a0] (def w1 1) (pc) " + x + " (pc) (list w0 w1 a0)) (list (f9 2) w0 w1)"
+	}},
+	{"stmt-loop", func(x string) string {
+		return "(for [(def a0 0) (< a0 3) (set a0 (+ a0 1))] " + x + ") (list w0 w1)"
+	}},
 	{"outer-macro", func(x string) string {
-		return "(defmac outer7 [z] ^(list ~z ~z)) (pc) (def res7 (outer7 " + x + ")) (pc) res7"
+		return "(defmac outer7 [z] ^(list ~z ~z)) (pc) (def res7 (outer7 " + x + ")) (pc) (list res7 w0 w1)"
 	}},
 }
 
@@ -253,6 +300,13 @@ func (h *H) oneMacro(idx int) {
 		m.kinds[np-1] = 'l'
 	}
 	m.body = h.genCode(m, 1+r.Intn(3))
+	formKind := ""
+	if r.Intn(3) == 0 {
+		// the expansion is one of the OTHER kinds of form the generator distinguishes
+		m.variadic = false
+		m.body, formKind = h.genFormKind(m)
+		np = len(m.params)
+	}
 	// argument forms
 	var args []*V
 	nfixed := np
@@ -300,7 +354,7 @@ func (h *H) oneMacro(idx int) {
 		h.envN++
 		d := &depthRec{}
 		d.install(env)
-		for _, s := range []string{"(def g0 11)", "(def gl (list 1 2 3))", "(def a0 3)", m.defSrc()} {
+		for _, s := range []string{"(def g0 11)", "(def gl (list 1 2 3))", "(def a0 3)", "(def w0 40)", "(def w1 50)", m.defSrc()} {
 			if r := lib.Eval(env, s, budget); r.Class != lib.OutValue {
 				panic("harness: macro setup failed: " + s + " => " + r.Show())
 			}
@@ -396,6 +450,9 @@ func (h *H) oneMacro(idx int) {
 	if m.body.Count('S') > 0 {
 		tags = append(tags, "macro-splice")
 	}
+	if formKind != "" {
+		tags = append(tags, formKind)
+	}
 	nontrivial := m.body.Count('U')+m.body.Count('S') > 0
 	h.out.Case("mac|"+m.defSrc()+" ;; (macexpand "+callSrc+")|"+strings.Join(m.params, " ")+"|"+m.body.Tok()+"|"+vtok+"|"+strings.Join(modelArgs, " , ")+binds,
 		"E="+etok+" H="+handTok, nontrivial, tags...)
@@ -417,8 +474,8 @@ func (h *H) oneMacro(idx int) {
 	}
 	// a macro whose expansion is the macro call: (via args) -> (m args)
 	if !wrongCount {
-		pm := "(defmac via8 [& z] ^(" + m.name + " ~@z)) (pc) (def res8 (via8 " + strings.Join(argSrc, " ") + ")) (pc) res8"
-		ph := "(pc) (def res8 " + handSrc + ") (pc) res8"
+		pm := "(defmac via8 [& z] ^(" + m.name + " ~@z)) (pc) (def res8 (via8 " + strings.Join(argSrc, " ") + ")) (pc) (list res8 w0 w1)"
+		ph := "(pc) (def res8 " + handSrc + ") (pc) (list res8 w0 w1)"
 		actual := runProg(envM, dM, pm)
 		expected := "ERR"
 		if hand != nil {
